@@ -177,7 +177,11 @@ fn main() {
     let rep: Report = match prop.as_str() {
         "C01" => p_kmer::run_c01(eff_tier, seed, &model, corpus),
         "C02" => p_kmer::run_c02(eff_tier, seed, &model, corpus),
-        "C03" => p_kmer::run_c03(eff_tier, seed, &model, corpus),
+        "C03" => {
+            let mut rep = p_kmer::run_c03(eff_tier, seed, &model, corpus);
+            p_cli::run_c03_cli(&mut rep, eff_tier, seed, &model, &cli_bin, &work);
+            rep
+        }
         "C04" => {
             // per-record values, then the written rows through both writer paths of the file API
             let mut rep = p_vec::run_c04(eff_tier, seed, &model, corpus);
@@ -217,6 +221,7 @@ fn main() {
             p_vec::run_c08_one(eff_tier, &mut rng, &model, &mut cov, cov_corpus);
             cov.rules.push("coverage histogram: CovComputer::vectorise_one with multiplicities at and around bin-size x bin-count and up to u32::MAX (the unchecked index must stay below bin-count)".into());
             rep.merge(cov);
+            rep.merge(p_count::run_partition_cases(eff_tier, seed, &model, &work));
             rep
         }
         "C07" => p_count::run_c07(eff_tier, seed, &model, corpus_lines, &work),
